@@ -16,7 +16,7 @@ INFO = {
 }
 
 
-def h_dt(defs, main, N, mode, style='sub'):
+def h_dt(defs, main, N, mode, style='sub', pre=0):
     defs_list = [(n, T(d)) for n, d in defs]
     main = T(main)
     dd = dict(defs_list)
@@ -42,6 +42,12 @@ def h_dt(defs, main, N, mode, style='sub'):
                 env.observe(n, list(got))
                 res += dt.eq_list(A, 'name-%s' % n, list(got), want)
             return res
+        if pre:
+            # the object has a history and was reset(): the named values afterwards are those of fresh stand-alone specifications
+            w0 = dt.trace(env, vs, pre, prefix='pre_')
+            for i in range(pre):
+                sm.update(i, [(v, w0[v][i]) for v in vs])
+            sm.reset()
         refs = [(n, f, dt.make_spec('combined', 'out = ' + text(f), sorted(variables(f)), pastify=past)) for n, f in names]
         for i in range(N):
             sm.update(i, [(v, w[v][i]) for v in vs])
@@ -143,6 +149,13 @@ def obligations(tier, rng):
     for d, m in [(('eventually_t', X, 0, 1), ('and', P, ('eventually_t', Y, 0, 3))), (('next', X), ('or', P, ('always_t', Y, 1, 2))),
                  (('once_t', X, 0, 1), ('and', P, ('eventually_t', Y, 0, 2)))]:
         out.append(ob('C12', 'dt', 'dt/pastified/horizons/p=%s/out=%s' % (text(d), text(m)), defs=[['p', d]], main=m, N=N + 2, mode='pastified'))
+    # after a history and a reset(): every name, also of assertions the last one does not refer to
+    for d in [('prev', X), ('once_t', X, 0, 2), ('since', X, Y), ('historically', X)]:
+        for m in [('geq', Z, ('const', 0.0)), ('and', P, Z), ('or', ('once', Z), ('not', P))]:
+            for style in ('sub', 'multi'):
+                out.append(ob('C12', 'dt', 'dt/online-after-reset/%s/p=%s/out=%s' % (style, text(d), text(m)), defs=[['p', d]], main=m, N=4, mode='online', style=style, pre=3))
+    for d, m in [(('once_t', X, 0, 2), ('and', P, ('eventually_t', Y, 0, 1))), (('prev', X), ('eventually_t', Z, 0, 2))]:
+        out.append(ob('C12', 'dt', 'dt/pastified-after-reset/p=%s/out=%s' % (text(d), text(m)), defs=[['p', d]], main=m, N=6, mode='pastified', pre=3))
     # the formula of a LATER name occurs, as plain text, inside an EARLIER definition next to (or below) a bounded-future operator: the
     # name is bound to its own formula, not to the delayed copy that pastify() made of that text elsewhere
     GY = ('geq', Y, ('const', 0.0))
